@@ -4,13 +4,14 @@
 # into `history` (with the note) and records the new result
 cd "$(dirname "$0")/.."
 name=$1; note=$2; shift 2
-rm -rf replays
 out=$(tools/try_mutant.sh seeded/$name quick "$@" 2>&1)
 python3 - "$name" "$note" "$out" <<'PY'
-import json, glob, sys, re
+import json, glob, os, sys, re
 name, note, out = sys.argv[1], sys.argv[2], sys.argv[3]
 hits = []
-for f in sorted(glob.glob('/verif/replays/*.json')):
+for f in sorted({'/verif/' + r for l in out.split('\n') if l.startswith('REPLAYS:') for r in l.split()[1:]}):
+    if not os.path.exists(f):
+        continue
     d = json.load(open(f))
     pid = d.get('property')
     if d.get('kind') == 'monitor':
@@ -32,4 +33,3 @@ d['caught_by'] = '; '.join(hits[:6]) if hits else 'NOT CAUGHT by the checks run'
 json.dump(d, open(p, 'w'), indent=1)
 print(name, "->", d['caught_by'][:260])
 PY
-rm -rf replays
